@@ -4,6 +4,9 @@
 From EG Require Import Base.Prelude Base.Casts Model.Geometry Gen.MockConsts Model.Mockdisplay Gen.SrcGeometry Gen.SrcMock Gen.SrcMock2.
 From EG Require Import Proofs.SrcGeometry Proofs.SrcMock.
 Set Default Timeout 60.
+(* the generated definitions that cast to usize (`as usize`, `usize::try_from`) take the width of usize as Casts.UsizeW; the model
+   of this property works with 64-bit usize (exact integers in range): taken at that width *)
+#[local] Existing Instance Casts.usize64_w.
 
 Lemma src_display_area_eq : src_DISPLAY_AREA = DISPLAY_AREA.
 Proof. reflexivity. Qed.
